@@ -201,7 +201,7 @@ def read_sfcf_multi(path, prefix, name_list, quarks_list=['.*'], corr_type_list=
     else:
         ens_name = kwargs.get("ens_name")
         if not appended:
-            new_names = _get_rep_names(ls, ens_name, rep_sep=(kwargs.get('rep_string', 'r')))
+            new_names = _get_rep_names(ls, ens_name, rep_sep=(kwargs.get('rep_string', 'r')), prefix=prefix)
         else:
             new_names = _get_appended_rep_names(ls, prefix, name_list[0], ens_name, rep_sep=(kwargs.get('rep_string', 'r')))
             new_names = sort_names(new_names)
@@ -654,11 +654,13 @@ def _read_append_rep(filename, pattern, b2b, cfg_separator, im, single):
         return T, rep_idl, data
 
 
-def _get_rep_names(ls, ens_name=None, rep_sep='r'):
+def _get_rep_names(ls, ens_name=None, rep_sep='r', prefix=''):
     new_names = []
     for entry in ls:
         try:
-            idx = entry.index(rep_sep)
+            idx = entry.find(rep_sep, len(prefix) if entry.startswith(prefix) else 0)
+            if idx < 0:
+                idx = entry.index(rep_sep)
         except Exception:
             raise Exception("Automatic recognition of replicum failed, please enter the key word 'names'.")
 
@@ -678,7 +680,9 @@ def _get_appended_rep_names(ls, prefix, name, ens_name=None, rep_sep='r'):
     for entry in ls:
         myentry = entry[:-len(name) - 1]
         try:
-            idx = myentry.index(rep_sep)
+            idx = myentry.find(rep_sep, len(prefix) if myentry.startswith(prefix) else 0)
+            if idx < 0:
+                idx = myentry.index(rep_sep)
         except Exception:
             raise Exception("Automatic recognition of replicum failed, please enter the key word 'names'.")
 
